@@ -1,4 +1,4 @@
-package iavl
+package PKGNAME
 
 // vDB: the storage model used by every harness — the ordered-KV contract of db/types.go
 // (sorted map, iterators over [start,end), atomic in-order batches, no empty keys, no nil
